@@ -482,9 +482,26 @@ def collective_consistent(d, o, rec):
     return None
 
 
+def _extended(sig, a, b):
+    """Samples a..b as numpy.longdouble with a ripple far below the resolution of a double on top (a function of
+    the sample number, so that every delivery of the same samples is the same): for |x| < 32 on a grid of 1/8 the
+    sums are exact in the 64-bit mantissa of the x87 extended format, and are no doubles."""
+    x = np.array(sig[a:b], dtype=np.longdouble)
+    if np.finfo(np.longdouble).nmant < 63 or not len(x):
+        return x
+    plain = np.array(sig[a:b], dtype=np.float64)
+    with np.errstate(over="ignore", invalid="ignore"):
+        ok = (np.abs(plain) < 32.0) & (np.round(plain * 8.0) == plain * 8.0)       # sample by sample: never depends on the slice
+    k = (np.arange(a, b, dtype=np.int64) * 7919) % 5 - 2
+    x[ok] = x[ok] + k[ok].astype(np.longdouble) * np.longdouble(2.0) ** -56
+    return x
+
+
 def one_piece(det, rec, prefix, flush=False, dtype=None):
     d = _mk(det, rec)
     arr = np.array(prefix, dtype=np.float64)
+    if dtype == "longdouble":
+        arr, dtype = _extended(prefix, 0, len(prefix)), None
     if dtype is not None:
         arr = arr.astype(dtype)
     _feed(d, arr, flush)
@@ -518,6 +535,8 @@ def generate(prop, rng, tier):
                      "cuts": gen_cuts(rng, sig),
                      "container": rng.choice(["ndarray", "ndarray", "ndarray", "list", "series", "strided", "readonly", "int", "int", "f32", "mixed"])})
     for rp in reps:
+        if prop == "C01" and rp["det"] == "fkm" and rng.random() < 0.15:
+            rp["container"] = "longdouble"
         if rp["rec"] in ("full", "value") and rng.random() < 0.15:
             rp["prefill"] = [[rng.randint(-9, 9), rng.randint(-9, 9), rng.randint(0, 50), rng.randint(0, 50)] for _ in range(rng.randint(1, 3))]
     order = []
@@ -612,6 +631,9 @@ def _execute(prop, trace):
         cont = rp.get("container", "ndarray")
         if cont == "list":
             chunk = [float(x) for x in sig[a:b]]
+        elif cont == "longdouble" and rp["det"] == "fkm" and prop == "C01":
+            chunk = _extended(sig, a, b)       # an 80-bit recording: samples that no double holds
+            out.count("container:longdouble")
         elif cont == "series":
             chunk = pd.Series(chunk, index=pd.RangeIndex(a + 7, b + 7))
         elif cont == "strided":
@@ -738,7 +760,7 @@ def check_c01(out, st, rp, r, prefix, o, flush):
     det, rec = rp["det"], rp["rec"]
     # I1: prefix refinement against a fresh one-piece replica
     try:
-        _, o_ref = one_piece(det, rec, prefix, flush)
+        _, o_ref = one_piece(det, rec, prefix, flush, dtype="longdouble" if rp.get("container") == "longdouble" and det == "fkm" else None)
     except RealCodeError as e:
         out.violate("exception", "%s/%s" % (det, e.where), {"one_piece_prefix": len(prefix), "type": e.exc_type, "msg": e.msg})
         st["dead"] = True
